@@ -404,7 +404,15 @@ class FillMonitor(Handler):
             pre_find = ("ok", fb, snap.diff(pre, after_fb))
         except Exception as e:
             pre_find = ("raised", type(e).__name__, set())
-        call.bag.update(pre=pre, value=value, weight=weight, pre_find=pre_find, one_d=one_d)
+        pre_axis = None
+        if not one_d and pre_find[0] == "ok":
+            # the same question axis by axis (by index or by name) has the same answer
+            try:
+                names = list(h.axis_names)
+                pre_axis = [h.find_bin(float(v), axis=(i if (i + len(names)) % 2 else names[i])) for i, v in enumerate(np.asarray(value, dtype=float).ravel())]
+            except Exception as e:
+                pre_axis = ("raised", f"{type(e).__name__}: {str(e)[:80]}")
+        call.bag.update(pre=pre, value=value, weight=weight, pre_find=pre_find, one_d=one_d, pre_axis=pre_axis)
 
     def after(self, call: Call):
         rec = core.recorder()
@@ -419,6 +427,15 @@ class FillMonitor(Handler):
             check_fill_1d(rec, call.self, b["pre"], b["value"], b["weight"], call.result, b["pre_find"], op=call.qualname + "(passive)")
         else:
             check_fill_nd(rec, call.self, b["pre"], b["value"], b["weight"], call.result, b["pre_find"], op=call.qualname + "(passive)")
+            pa = b.get("pre_axis")
+            if pa is not None and b["pre_find"][0] == "ok":
+                pf = b["pre_find"][1]
+                if isinstance(pa, tuple) and pa and pa[0] == "raised":
+                    rec.fail(prop="C03", monitor="C03.fill.delta", op=call.qualname + "(passive)", symptom="find_bin(coordinate, axis=...) raised for a point that find_bin(point) answers", diff=["find_bin"],
+                             detail={"error": pa[1], "value": np.asarray(b["value"], dtype=float).tolist()})
+                elif (pf is not None and [None if x is None else int(x) for x in pa] != [int(x) for x in pf]) or (pf is None and all(x is not None for x in pa)):
+                    rec.fail(prop="C03", monitor="C03.fill.delta", op=call.qualname + "(passive)", symptom="find_bin axis by axis disagrees with find_bin of the whole point", diff=["find_bin"],
+                             detail={"per_axis": pa, "point": None if pf is None else [int(x) for x in pf], "value": np.asarray(b["value"], dtype=float).tolist()})
 
 
 class FillNMonitor(Handler):
